@@ -112,7 +112,20 @@ def run_case(ctx, drv, case, variant, record=None):
 def _run_case(ctx, drv, case, variant, record=None):
     from .c14_harness import Harness, HarnessHang, show_bytes
     kinds, stream, sched = case["callers"], [tuple(x) for x in case["stream"]], case["sched"]
-    h = Harness(kinds, VALUES, stream, [VALUES[i] for i in FAIL], server=bool(case.get("server")))
+    import contextlib
+    import io
+    with contextlib.ExitStack() as _stack:
+        if case.get("apply"):
+            # NetworkClient.__call__ prints the traceback of every failure to stderr
+            _stack.enter_context(contextlib.redirect_stderr(io.StringIO()))
+        return _run_case_inner(ctx, drv, case, variant, record)
+
+
+def _run_case_inner(ctx, drv, case, variant, record=None):
+    from .c14_harness import Harness, HarnessHang, show_bytes
+    kinds, stream, sched = case["callers"], [tuple(x) for x in case["stream"]], case["sched"]
+    h = Harness(kinds, VALUES, stream, [VALUES[i] for i in FAIL], server=bool(case.get("server")),
+                apply_path=bool(case.get("apply")))
     hang_step = None
     try:
         try:
@@ -164,6 +177,12 @@ def _run_case(ctx, drv, case, variant, record=None):
                             "a caller is blocked in .result() although the io loop has nothing left to run")
         o = r["outcome"]
         if o is None:
+            continue
+        if o.startswith("value:exception"):
+            ctx.oracle_fail("c14:exception-returned-as-value", case, "the call raises",
+                            dict(caller=r["k"], returned=o, observed=observed),
+                            "a failed remote call (server error / connection lost / connection gone) handed an "
+                            "exception object back to the caller as its answer instead of raising")
             continue
         if o == "abort":
             ctx.mismatch("harness teardown reached a live caller", case, "finished", "aborted")
@@ -613,6 +632,29 @@ def gen_push(rng):
                     yield dict(kind="push", callers=["call"] * n, stream=stream, sched=sched)
 
 
+def gen_apply(rng):
+    """the Klong application path `f(x)` (NetworkClient.__call__) for every failure outcome -
+    server-side error, loss while pending, call after the connection has gone, closed transport -
+    and for a normal answer: the caller gets an exception, never a value"""
+    k3 = lambda k: [["K", k]] * 3
+    yield dict(kind="apply", apply=True, server=True, callers=["failcall"], stream=[], sched=k3(0) + [["IOS"]])
+    yield dict(kind="apply", apply=True, server=True, callers=["call", "badresult"], stream=[],
+               sched=k3(0) + [["IOS"]] + k3(1) + [["IOS"]])
+    yield dict(kind="apply", apply=True, server=True, callers=["call", "failcall", "call"], stream=[],
+               sched=k3(0) + k3(1) + k3(2) + [["IOS"]])
+    for loss in (["EOF"], ["RESET"]):
+        yield dict(kind="apply", apply=True, callers=["call", "call"], stream=[[0, 0]],
+                   sched=k3(0) + k3(1) + [["IOS"], ["F", 0, 25], ["IOS"], loss, ["IOS"]])
+        yield dict(kind="apply", apply=True, callers=["call", "call"], stream=[],
+                   sched=k3(0) + [["IOS"], loss, ["IOS"]] + k3(1) + [["IOS"]])
+        yield dict(kind="apply", apply=True, callers=["call"], stream=[],
+                   sched=[loss, ["IOS"], ["PROVCLOSE"]] + k3(0) + [["IOS"]])
+    yield dict(kind="apply", apply=True, callers=["call", "call"], stream=[[1, 1], [0, 0]],
+               sched=k3(0) + k3(1) + [["IOS"], ["F", 0, 1000], ["IOS"]])
+    yield dict(kind="apply", apply=True, callers=["call"], stream=[],
+               sched=k3(0)[:2] + [["BREAKW"]] + k3(0)[:1] + [["IOS"]])
+
+
 def gen_server(rng, count):
     """the REAL server side (TcpServerHandler.handle_client -> NetworkClient._run) at the other
     end of the wire: requests that evaluate, requests whose evaluation raises, results that
@@ -802,6 +844,7 @@ def run(ctx):
             kernel_trace_obligation(ctx, variant, rec[0])
         gens = [
             gen_orders(ctx.rng, not quick),
+            gen_apply(ctx.rng),
             gen_push(ctx.rng),
             gen_server(ctx.rng, 60 if quick else 500),
             gen_peer(ctx.rng, not quick),
